@@ -452,6 +452,8 @@ var genMetaText = rapid.Custom(func(t *rapid.T) string {
 	return s
 })
 
+var exoticSyms = []string{"MajorSeventh", "DominantSeventh", "+", "(b9)", "ø", "Δ7", "m]x", "{x}", "x,y", "7#9", "b5", "#11", "]", "o7", "R", "C", "}", ",", "♭9", "é", "13", "007"}
+
 type ProgOpts struct {
 	MaxItems   int
 	Syllable   bool // restrict roots/basses to what note names can express in the running key
@@ -460,6 +462,8 @@ type ProgOpts struct {
 	Settings   int
 	Texts      int
 	RestPct    int
+	SimpleVals bool // durations that are multiples of a quarter beat (no exact halves)
+	ExoticSyms bool // symbols outside the dictionary (text conv does not interpret them)
 }
 
 // genProgression draws an abstract progression that is valid by construction
@@ -498,8 +502,15 @@ func genProgression(o ProgOpts, k0 string) *rapid.Generator[[]PItem] {
 					}
 				}
 				p.Sym = rapid.SampledFrom(theory.Displays).Draw(t, "sym")
+				if o.ExoticSyms && coin(t, "exotic", 25) {
+					p.Sym = rapid.SampledFrom(exoticSyms).Draw(t, "exotic-sym")
+				}
 			}
-			p.Vals = genValues(3).Draw(t, "vals")
+			if o.SimpleVals {
+				p.Vals = []Frac{{rapid.IntRange(1, 6).Draw(t, "sv"), rapid.SampledFrom([]int{1, 1, 2, 4}).Draw(t, "sd")}}
+			} else {
+				p.Vals = genValues(3).Draw(t, "vals")
+			}
 			p.BPM = opt(t, "bpm", o.Settings, genBPM)
 			p.Vel = opt(t, "vel", o.Settings, rapid.SampledFrom(theory.Dynamics))
 			p.Mtr = opt(t, "mtr", o.Settings, genMeter)
